@@ -143,6 +143,44 @@ def annot_body(t, funcs=FUNCS, types=TRACED_TYPES):
     return check(True)
 
 
+# ---------------------------------------------------------------- the CLI flag path
+CLI_FLAGS = ((), ("--ignore-existing-annotations",), ("--omit-existing-annotations",), ("--disable-type-rewriting",),
+             ("--disable-type-rewriting", "--ignore-existing-annotations"))
+FLAG_STRATEGY = {(): S.REPLICATE, ("--ignore-existing-annotations",): S.IGNORE, ("--omit-existing-annotations",): S.OMIT,
+                 ("--disable-type-rewriting",): S.REPLICATE, ("--disable-type-rewriting", "--ignore-existing-annotations"): S.IGNORE}
+
+
+def cli_body(t):
+    """`monkeytype [--disable-type-rewriting] stub <module> [--ignore|--omit-existing-annotations]` through
+    cli.main: the flags must select the strategy / rewriter they name (compared with the stub built directly)."""
+    from vfix import cfg as CFG
+    from harness.c10 import Sink
+    from monkeytype import cli
+    from monkeytype.encoding import CallTraceRow
+    from monkeytype.stubs import build_module_stubs_from_traces
+    from monkeytype.typing import DEFAULT_REWRITER
+
+    flags = CLI_FLAGS[t.take(len(CLI_FLAGS))]
+    func = (F.ann_class, F.ann_optional, F.unannotated, F.ann_none_default)[t.take(4)]
+    names = list(inspect.signature(func).parameters)
+    # an empty list next to a class: DEFAULT_REWRITER (RemoveEmptyContainers is a no-op here) vs NoOp differ on a large union
+    traces = [CallTrace(func, {names[0]: ty}, int) for ty in (int, str, float, bytes, bool, K.B, K.A)[: 2 + t.take(6)]]
+    CFG.CONFIG.store.rows = [CallTraceRow.from_trace(tr) for tr in traces]
+    CFG.CONFIG.k = 0
+    CFG.CONFIG.rewriter = DEFAULT_REWRITER
+    out, err = Sink(), Sink()
+    pre = [f for f in flags if f == "--disable-type-rewriting"]
+    post = [f for f in flags if f != "--disable-type-rewriting"]
+    try:
+        rc = cli.main(pre + ["-c", "vfix.cfg:CONFIG", "stub", func.__module__] + post, out, err)
+    finally:
+        CFG.CONFIG.rewriter = None
+    want = build_module_stubs_from_traces(traces, 0, FLAG_STRATEGY[flags], NoOpRewriter() if pre else DEFAULT_REWRITER)[func.__module__].render()
+    got = out.getvalue().rstrip("\n")
+    return check(rc == 0 and got == want, lambda: f"flags {flags} on {func.__qualname__} with {len(traces)} traces: exit {rc}, stdout\n{got}\nexpected\n{want}\nstderr {err.getvalue()!r}")
+
+
+tape_harness("cli_flags", [("t", 3)], {}, cli_body, globals())
 tape_harness("annot_quick", [("t", 14)], {}, lambda t: annot_body(t, FUNCS, TRACED_TYPES[:3]), globals())
 tape_harness("annot_thorough", [("t", 14)], {}, lambda t: annot_body(t, FUNCS, TRACED_TYPES), globals())
 
@@ -150,12 +188,18 @@ tape_harness("annot_thorough", [("t", 14)], {}, lambda t: annot_body(t, FUNCS, T
 def shards(name, prefix=3):
     from engine.verdicts import enumerate_prefixes
 
+    if name == "cli_flags":
+        return [{"t0": i, "t1": j} for i in range(len(CLI_FLAGS)) for j in range(4)]
+
     ty = TRACED_TYPES[:3] if name == "annot_quick" else TRACED_TYPES
     return [{f"t{j}": v for j, v in enumerate(p)} for p in enumerate_prefixes(lambda t: annot_body(t, FUNCS, ty), prefix)]
 
 
 def describe(name, args):
     from engine.verdicts import Tape
+
+    if name == "cli_flags":
+        return {"flags": CLI_FLAGS[min(max(args.get("t0", 0), 0), len(CLI_FLAGS) - 1)], "tape": [args.get("t1"), args.get("t2")]}
 
     ks = sorted((k for k in args if k[0] == "t" and k[1:].isdigit()), key=lambda s: int(s[1:]))
     t = Tape([args[k] for k in ks])
